@@ -88,8 +88,8 @@ static int closed_interval(const std::string& type)
   o2->accept(&L); const double r2 = L.rhs;
   std::printf("%s #1 (observed - computed = +pi): rhs = %.17g cc\n", type.c_str(), r1);
   std::printf("%s #2 (observed - computed = -pi): rhs = %.17g cc\n", type.c_str(), r2);
-  const bool closed = r1 == 200e4 && r2 == -200e4;
-  std::printf("%s: +200 gon and -200 gon are both produced (closed interval, the property asks for half-open): %s\n",
+  const bool closed = !(r1 >= -200e4 && r1 < 200e4 && r2 >= -200e4 && r2 < 200e4);
+  std::printf("%s: a right-hand side outside the half-open range [-200, 200) gon is produced: %s\n",
               type.c_str(), closed ? "POSTCONDITION VIOLATED" : "ok");
   return closed ? 1 : 0;
 }
@@ -99,9 +99,9 @@ int main(int argc, char** argv)
   if (argc < 3) return 2;
   std::string check = argv[2];
   if (check == "z_angle_val5") return z_angle_second_face();
-  if (check == "direction_halfopen") return closed_interval("direction");
-  if (check == "azimuth_halfopen") return closed_interval("azimuth");
-  if (check == "angle_halfopen") return closed_interval("angle");
+  if (check == "direction_halfopen" || check == "direction") return closed_interval("direction");
+  if (check == "azimuth_halfopen" || check == "azimuth") return closed_interval("azimuth");
+  if (check == "angle_halfopen" || check == "angle") return closed_interval("angle");
   std::printf("no native replay for check %s\n", check.c_str());
   return 2;
 }
